@@ -18,6 +18,7 @@ RULE = (
     "somewhere and at least one true combination. distinct = distinct case JSON."
     ' Between the two predictions of the predict / merge / predict history the collection helpers are called on the plate with a collection holding a NaN sample.'
     ' Also: views whose selection array changes in place between two predictions (observed-part view and a reveal on its screen; a caller refilling its mask).'
+    ' A third of the cases re-enter prediction (another prediction runs at every other line of a whole-screen prediction).'
 )
 ASSUMPTIONS = [
     "'logistic of the mean' is checked literally for the additive type; for the interaction type the documented relation exp(mean)*clip(product of single effects) clipped to [.01,.99] is used",
@@ -433,6 +434,26 @@ def check_case(case):
             now = np.asarray(v_.selection_vector).copy()
             got = np.asarray(th0.predict_conditional_mean(v_), dtype=float)
             require(got.shape == (int(now.sum()),) and _close(got, whole_a[now]), "mean.view_after_mask_reuse", lambda: "a view made from a caller's mask, predicted on, the mask refilled by the caller, predicted on again gives %r; the whole-screen entries of the rows it selects now are %r" % (got.tolist()[:6], whole_a[now].tolist()[:6]))
+
+    # re-entrancy: in the middle of predicting the whole screen another prediction (a sub-view, another sample) runs to completion
+    # - a callback, a signal handler, another thread scheduled there; the interrupted prediction must still be right
+    if n >= 2 and len(holder.thetas) >= 1 and case["perm_seed"] % 3 == 0:
+        from vf import interrupt
+
+        with np.errstate(all="ignore"):
+            th0, th1 = holder.thetas[0], holder.thetas[-1]
+            k_sub = 1 + case["perm_seed"] % (n - 1)
+            sub_sel = np.zeros(n, dtype=bool)
+            sub_sel[:k_sub] = True
+            sub_view = alias.subset(sub_sel)
+            want_whole = np.asarray(th0.predict_conditional_mean(alias), dtype=float)
+            want_sub = np.asarray(th1.predict_conditional_mean(sub_view), dtype=float)
+            for point in range(1 + case["perm_seed"] % 2, 160, 2):
+                got_w, got_s, fired = interrupt.reentered_at(lambda: np.asarray(th0.predict_conditional_mean(alias), dtype=float), point, lambda: np.asarray(th1.predict_conditional_mean(sub_view), dtype=float))
+                if not fired:
+                    break
+                require(got_w.shape == want_whole.shape and S.same_bits(got_w, want_whole), "mean.reentrant", lambda: "the whole-screen prediction, during which (at its line event %d) another prediction of %d rows ran, gives %r; undisturbed it gives %r" % (point, k_sub, got_w.tolist()[:6], want_whole.tolist()[:6]))
+                require(got_s is not None and S.same_bits(got_s, want_sub), "mean.reentrant_inner", lambda: "a prediction run in the middle of another one (line event %d) gives %r; on its own %r" % (point, got_s.tolist()[:6], want_sub.tolist()[:6]))
 
     c0 = bool(np.any(tid[:, 0] == -1))
     c1 = bool(np.any(tid[:, 1] == -1))
